@@ -175,3 +175,87 @@ func mangle(s string) string {
 	}
 	return b.String()
 }
+
+// sexprSplit returns the top-level elements of "(a b c)"; ok is false if t is not a list.
+func sexprSplit(t string) (elems []string, ok bool) {
+	t = strings.TrimSpace(t)
+	if len(t) < 2 || t[0] != '(' || t[len(t)-1] != ')' {
+		return nil, false
+	}
+	in := t[1 : len(t)-1]
+	depth := 0
+	start := -1
+	inStr := false
+	for i := 0; i < len(in); i++ {
+		c := in[i]
+		if inStr {
+			if c == '"' {
+				inStr = false
+			}
+			continue
+		}
+		switch {
+		case c == '"':
+			inStr = true
+			if start < 0 {
+				start = i
+			}
+		case c == '(':
+			if depth == 0 && start < 0 {
+				start = i
+			}
+			depth++
+		case c == ')':
+			depth--
+			if depth < 0 {
+				return nil, false
+			}
+		case c == ' ' || c == '\n' || c == '\t':
+			if depth == 0 && start >= 0 {
+				elems = append(elems, in[start:i])
+				start = -1
+			}
+		default:
+			if start < 0 {
+				start = i
+			}
+		}
+	}
+	if start >= 0 {
+		elems = append(elems, in[start:])
+	}
+	return elems, depth == 0
+}
+
+// splitGoal splits a goal term into separately provable conjuncts.
+func splitGoal(t string) []string {
+	el, ok := sexprSplit(t)
+	if !ok || len(el) == 0 {
+		return []string{t}
+	}
+	switch el[0] {
+	case "and":
+		var out []string
+		for _, x := range el[1:] {
+			out = append(out, splitGoal(x)...)
+		}
+		return out
+	case "=>":
+		if len(el) == 3 {
+			var out []string
+			for _, x := range splitGoal(el[2]) {
+				out = append(out, "(=> "+el[1]+" "+x+")")
+			}
+			return out
+		}
+	case "forall":
+		if len(el) == 3 {
+			var out []string
+			for _, x := range splitGoal(el[2]) {
+				out = append(out, "(forall "+el[1]+" "+x+")")
+			}
+			return out
+		}
+	}
+	return []string{t}
+}
